@@ -457,7 +457,8 @@ def rule_r2(facts, rep, rid="C09-R2"):
     rep.saw_fn(rp)
     t = _cs(rp, rp.body)
     key = rp.def_ + "|replaces-only-target"
-    if re.match(r"^\{ifself\.id_eq\(P1\)\{P2\.clone\(\)\}else\{self\.map_children\(\|c0\|c0\.replace\(P1,P2\)\)\}\}$", t):
+    if re.match(r"^\{ifself\.id_eq\(P1\)\{P2\.clone\(\)\}else\{self\.map_children\(\|c0\|c0\.replace\(P1,P2\)\)\}\}$", t) or \
+            re.match(r"^\{ifself\.id_eq\(P1\)\{returnP2\.clone\(\);?\};?self\.map_children\(\|c0\|c0\.replace\(P1,P2\)\)\}$", t):
         rep.ok(rid, key, "if id_eq(target) { new } else { map_children(recursive) }", rp.loc)
     else:
         rep.violation(rid, key, "Tree::replace is no longer `if id_eq(target) {new} else {map_children(recursive)}`", rp.loc)
